@@ -16,7 +16,8 @@ P1_RULE = ("histories generated from one SplitMix64 state: commits of 1..6 ops o
            "reopen (and crash for C02/C03/C07); distinct = by SHA-1 of the op list; non-trivial = the history had data "
            "in at least two different pipeline stages at some observation point")
 
-HOOK_COMMITS = ["39fa7aa verif hook: expose both index page searches (cfg pdb_verif)"]
+HOOK_COMMITS = ["39fa7aa verif hook: expose both index page searches (cfg pdb_verif)",
+                "aa461bc verif hook: route a stepping error through store_err (cfg pdb_verif)"]
 NOT_APPLICABLE = {}
 
 PROPS = {
@@ -111,5 +112,25 @@ PROPS = {
                  "exhaustive column-kind x operation-kind matrix incl. fan-out 255/256 and missing roots; p1: histories with ~3% invalid "
                  "references; distinct by SHA-1 of the op list; non-trivial = at least one transaction was rejected"),
         "assumptions": [A_HASH, P2_GAP],
+    },
+    "C16": {
+        "level_text": ("Lean theorems C16_commits_refused (after a stored error every commit is refused and changes nothing), "
+                       "C16_reads_committed (for a failure striking any reachable state, with any number of table writes of the record being "
+                       "enacted already done, reads still return the latest write among all accepted transactions; rc: positive count "
+                       "implies readable) and C16_reopen_prefix (reopening replays the logs to the specification of a prefix containing "
+                       "everything logged, hence everything synced, and the invariant holds again). Tied to the code by injecting a "
+                       "persistent I/O error at seeded file-operation indexes of every stepping call and of open itself, routing it "
+                       "through store_err, then observing reads, refusal, drop, reopen."),
+        "level_note": ("Trusted: Lean kernel; P1 abstraction; 'no panic' and 'the failing call returns the error' are checked on the "
+                       "implementation only (catch_unwind at every injected fault); worker threads are not exercised here (the thread-local "
+                       "fault counter cannot reach them): the worker wrapper is represented by the hook verif_store_err."),
+        "lean": ["Pdb.Props.C16"],
+        "harness": [{"cmd": "c16", "quick": 150, "thorough": 8000}],
+        "rule": ("fault-free stretches of a generated history, then one stepping call (process / flush / enact / clean / reindex) or Db::open of "
+                 "a crash image executed with set_number_of_allowed_io_operations(i) for a seeded index i (0, 1, or up to 60), failure "
+                 "persisting for the rest of the call and optionally through drop; distinct by SHA-1 of the op list; non-trivial = the "
+                 "fault was actually hit"),
+        "assumptions": [A_HASH, A_COMPRESS, P2_GAP],
+        "trusted": ["hook Db::verif_store_err (cfg pdb_verif)", "the crate's own fault injector (try_io, feature instrumentation)"],
     },
 }
